@@ -136,7 +136,7 @@ def run(ctx):
             ctx.check("message-tags", "make_srep/%s/tags" % v, okb and tags == want_tags, "SREP tags %s" % want_tags,
                       "SREP tags for %s are %s, spec %s (%s)" % (v, tags, want_tags, why), ctx.loc(ms))
             enc_bb = payload[3][1]
-            ok_order = okb and all(ms.dominates(f[2], enc_bb) for f in fields)
+            ok_order = okb and all(ms.dominates(f[2], enc_bb) or values.must_pass(ms, [f[2]], from_block=0, to_blocks={enc_bb}, live=live) for f in fields)
             ctx.check("sign-sequence", "make_srep/%s/all-fields-added-before-encoding" % v, ok_order, "every SREP field is added before encode()",
                       "a field is added to SREP after it was encoded/signed", ctx.loc(ms))
             for (tg, val, bb) in fields:
